@@ -406,7 +406,7 @@ pub fn run_shard(
                 cases: mine as u32,
                 failure_persistence: None,
                 rng_seed: RngSeed::Fixed(derive_seed(seed, &format!("{property}/{}", stream.name), shard)),
-                max_shrink_iters: 4000,
+                max_shrink_iters: 1500,
                 max_shrink_time: 0,
                 verbose: 0,
                 ..Config::default()
